@@ -95,6 +95,26 @@ Theorem C02_served_only_without_error : forall (is_ip : bytes -> bool) cfg sni,
 Proof. exact (fun is_ip => served_only_without_error is_ip gen_rejected_suffixes). Qed.
 Print Assumptions C02_served_only_without_error.
 
+(** Every return of hostConn (as emitted from the current source) between
+    accepting the front connection and the join: whatever HelloInfo returns
+    ([sniff]; None = any error) and whether or not the dial succeeds, the front
+    connection is closed when hostConn returns; bytes flow (JoinConn runs) only
+    for a sniffed, not rejected name whose route selects a destination and
+    whose dial succeeds; with a sniffing error or a rejected name the dialer
+    is not called; a connection that was dialled is closed again. *)
+Theorem C02_every_error_return_serves_nothing : forall (is_ip : bytes -> bool) cfg sniff dial_ok,
+  exists o,
+    run_front is_ip gen_rejected_steps gen_dial_steps cfg sniff dial_ok gen_host_steps hs0 = FOut o /\
+    fo_front_closed o = true /\
+    (fo_joined o = true <->
+       exists name, sniff = Some name /\
+                    served (decide is_ip gen_rejected_suffixes cfg name) = true /\ dial_ok = true) /\
+    ((sniff = None \/ exists name, sniff = Some name /\ is_rejected is_ip gen_rejected_suffixes name = true) ->
+       fo_dial o = None /\ fo_joined o = false) /\
+    fo_remote_closed o = fo_joined o.
+Proof. exact gen_front_outcomes. Qed.
+Print Assumptions C02_every_error_return_serves_nothing.
+
 (** Why the premise matters: a list that tests the destination instead of the
     error does not satisfy it, and serves a name the lookup refused. *)
 Theorem C02_dest_tested_serves_refused_name : forall cfg sni d ep,
@@ -254,6 +274,7 @@ Theorem C02_source_tie :
   gen_rejected_suffixes = deployed_suffixes /\
   list_eqb dial_step_eqb gen_dial_steps deployed_dial_steps = true /\
   lookup_err_guarded gen_dial_steps = true /\
+  list_eqb host_step_eqb gen_host_steps deployed_host_steps = true /\
   reject_before_dialb = true /\
   list_eqb String.eqb gen_host_conn_calls deployed_host_conn_calls = true /\
   (gen_lock_violations = [] /\
@@ -261,9 +282,9 @@ Theorem C02_source_tie :
   RouteGen.src_diff gen_route_src frozen_route_src = [].
 Proof.
   exact (conj gen_rejected_steps_eq (conj gen_suffixes_eq (conj gen_dial_steps_deployed
-          (conj gen_dial_lookup_err_guarded
+          (conj gen_dial_lookup_err_guarded (conj gen_host_steps_deployed
           (conj gen_reject_before_dial (conj gen_host_conn_calls_deployed
-            (conj gen_lock_skeleton gen_route_src_frozen))))))).
+            (conj gen_lock_skeleton gen_route_src_frozen)))))))).
 Qed.
 Print Assumptions C02_source_tie.
 
@@ -315,6 +336,19 @@ Example C02_nonvacuous_four_shapes :
   run dest_tested_steps "suspended.example"%string = REndpoint 1 (ascii_bytes "/ep1") /\
   run [DNoLookup; DDomain; DLookup; DGuard CErrNonNil (BRet XErr); DHomeForward; DEndpoint;
        DGuard CErrNonNil (BRet XAnnotErr); DDial] "void.example"%string = RPanic.
+Proof. vm_compute. repeat split. Qed.
+
+(** hostConn on four connections: a hello that cannot be sniffed, a served
+    name whose dial succeeds / fails, and the name refused with a destination. *)
+Example C02_nonvacuous_front :
+  let run := fun sniff ok => run_front (fun _ => false) gen_rejected_steps gen_dial_steps ex_cfg
+                               sniff ok gen_host_steps hs0 in
+  run None true = FOut (mkOut true None false false) /\
+  run (Some (ascii_bytes "site1.example")) true
+    = FOut (mkOut true (Some (REndpoint 1 (ascii_bytes "/ep1"))) true true) /\
+  run (Some (ascii_bytes "site1.example")) false
+    = FOut (mkOut true (Some (REndpoint 1 (ascii_bytes "/ep1"))) false false) /\
+  run (Some (ascii_bytes "suspended.example")) true = FOut (mkOut true (Some RLookupErr) false false).
 Proof. vm_compute. repeat split. Qed.
 
 (** Two dials interleaved (ids 0 and 1 from the counter, keys 77 and 78),
